@@ -1,8 +1,545 @@
-//! C04 observations (see props/c04.py for the consumer).
+//! C04 observations.
+//!   nm      — `math::nelder_mead_1d` on small cost functions (dyadic data), with the sequence of in-bounds evaluations
+//!   poling  — `optimum_poling_period` / `PeriodicPoling::try_new_optimum` / `SPDC::assign_optimum_periodic_poling` / config "auto"
+//!             on random setups; the unpoled mismatch, the residual mismatch at the returned period, and a *replica* run of
+//!             nelder_mead_1d on the same cost function built from public API, with its evaluation table
+//!   theta   — `CrystalSetup::optimum_theta` / `SPDC::assign_optimum_crystal_theta` / config "auto": returned angle, residual,
+//!             a 0.25 degree scan of the signed longitudinal mismatch over [0, 90] degrees, replica run with table
+//!   edge    — crystal lengths placed just below the exact collinear root 2 pi/|dkz0| (search for the seed-above-bound window)
 #![allow(unused_imports, dead_code)]
+use crate::c03::{f64_of, freq, gen_setup, met, pp_json, rad, setup_from_json, v3, wvec, Setup, PMS};
 use crate::common::*;
-use serde_json::json;
+use serde_json::{json, Value};
+use spdcalc::beam::*;
+use spdcalc::dim::ucum::{DEG, HZ, K, M, RAD, S, V, W};
+use spdcalc::math::nelder_mead_1d;
+use spdcalc::utils::{frequency_to_vacuum_wavelength, from_celsius_to_kelvin};
+use spdcalc::*;
+use std::cell::RefCell;
+use std::f64::consts::{FRAC_PI_2, PI};
 
-pub fn run(_args: &[String]) {
-  emit(json!({"kind": "not_implemented", "property": "C04"}));
+// ------------------------------------------------------------------------------------------------ toy cost functions
+#[derive(Clone, Copy, Debug)]
+pub struct Toy {
+  pub kind: u32,
+  pub a: f64,
+  pub b: f64,
+  pub h: f64,
+}
+
+pub fn toy(t: &Toy, x: f64) -> f64 {
+  match t.kind {
+    0 => (x - t.a).abs(),
+    1 => (x - t.a) * (x - t.a),
+    2 => {
+      if x < t.a {
+        (t.a - x) * 2.0 + t.h
+      } else {
+        (x - t.a) * 0.5 + t.h
+      }
+    }
+    3 => {
+      let u = (x - t.a).abs();
+      let v = (x - t.b).abs() + t.h;
+      if u < v {
+        u
+      } else {
+        v
+      }
+    }
+    4 => t.h,
+    5 => {
+      if x < t.a {
+        1.0
+      } else {
+        0.0
+      }
+    }
+    _ => {
+      // tilted double well: |x - a| * |x - b| is not exact in binary64 in general; use max instead
+      let u = (x - t.a).abs();
+      let v = 2.0 * (x - t.b).abs();
+      if u > v {
+        u
+      } else {
+        v
+      }
+    }
+  }
+}
+
+fn dy(rng: &mut Rng, lo: i64, hi: i64, den: f64) -> f64 {
+  (lo + (rng.next_u64() % ((hi - lo + 1) as u64)) as i64) as f64 / den
+}
+
+/// run nelder_mead_1d recording every in-bounds evaluation (x, cost)
+pub fn nm_traced<F: Fn(f64) -> f64>(f: F, guess: (f64, f64), max_iter: u64, min: f64, max: f64, tol: f64) -> (Result<f64, String>, Vec<(f64, f64)>) {
+  let table: RefCell<Vec<(f64, f64)>> = RefCell::new(Vec::new());
+  let r = {
+    let g = |x: f64| {
+      let c = f(x);
+      table.borrow_mut().push((x, c));
+      c
+    };
+    guarded(std::panic::AssertUnwindSafe(|| nelder_mead_1d(g, guess, max_iter, min, max, tol)))
+  };
+  (r, table.into_inner())
+}
+
+fn table_json(t: &[(f64, f64)]) -> Value {
+  Value::Array(t.iter().map(|(x, c)| json!([fx(*x), fx(*c)])).collect())
+}
+
+fn run_nm(rng: &mut Rng, n: usize) {
+  for i in 0..n {
+    let kind = (i % 7) as u32;
+    let t = Toy { kind, a: dy(rng, -256, 256, 16.0), b: dy(rng, -256, 256, 16.0), h: dy(rng, 0, 64, 16.0) };
+    let g0 = dy(rng, -512, 512, 16.0);
+    let g1 = match rng.below(4) {
+      0 => g0 + 1.0,
+      1 => g0 + dy(rng, 1, 64, 16.0),
+      2 => g0 - dy(rng, 1, 64, 16.0),
+      _ => dy(rng, -512, 512, 16.0),
+    };
+    let max_iter = if kind == 1 { rng.below(17) as u64 } else { rng.below(41) as u64 };
+    let (min, max) = match rng.below(4) {
+      0 => (-1000.0, 1000.0),
+      1 => (g0.min(g1) - dy(rng, 0, 32, 16.0), g0.max(g1) + dy(rng, 0, 64, 16.0)),
+      2 => (g0 - dy(rng, 0, 16, 16.0), g0 + dy(rng, 0, 16, 16.0)),
+      _ => (dy(rng, -512, 0, 16.0), dy(rng, 0, 512, 16.0)),
+    };
+    let tol = match rng.below(4) {
+      0 => 0.0,
+      1 => 1.0 / 1024.0,
+      2 => 1.0 / 1048576.0,
+      _ => 1e-6,
+    };
+    let (r, table) = nm_traced(|x| toy(&t, x), (g0, g1), max_iter, min, max, tol);
+    emit(json!({
+      "kind": "nm", "i": i, "toy": {"kind": kind, "a": fx(t.a), "b": fx(t.b), "h": fx(t.h)},
+      "g0": fx(g0), "g1": fx(g1), "max_iter": max_iter, "min": fx(min), "max": fx(max), "tol": fx(tol),
+      "result": match &r { Ok(x) => json!({"ok": true, "x": fx(*x)}), Err(m) => json!({"ok": false, "panic": m}) },
+      "table": table_json(&table),
+    }));
+  }
+}
+
+// ------------------------------------------------------------------------------------------------ mismatch helpers (public API only)
+/// longitudinal mismatch at the centre frequencies with the optimum idler for `pp`
+pub fn dkz(signal: &SignalBeam, pump: &PumpBeam, cs: &CrystalSetup, pp: &PeriodicPoling) -> Result<(f64, IdlerBeam), String> {
+  let idler = IdlerBeam::try_new_optimum(signal, pump, cs, pp).map_err(|e| e.0)?;
+  let d = wvec(delta_k(signal.frequency(), idler.frequency(), signal, &idler, pump, cs, pp));
+  Ok((d.z, idler))
+}
+
+fn result_json(r: &Result<Result<f64, String>, String>) -> Value {
+  match r {
+    Ok(Ok(p)) => json!({"class": "ok", "value": fx(*p)}),
+    Ok(Err(e)) => json!({"class": "err", "error": e}),
+    Err(m) => json!({"class": "panic", "message": m}),
+  }
+}
+
+/// everything the consumer needs about one poling setup
+fn observe_poling(i: usize, tag: &str, s: &Setup) {
+  let Setup { cs, signal, pump, input, .. } = s;
+  let off = PeriodicPoling::Off;
+  let z0 = guarded(std::panic::AssertUnwindSafe(|| dkz(signal, pump, cs, &off)));
+  let (z0v, idler0) = match z0 {
+    Ok(Ok((z, idl))) => (z, idl),
+    other => {
+      emit(json!({"kind": "poling_skip", "i": i, "tag": tag, "input": input, "why": format!("{:?}", other.map(|r| r.map(|x| x.0)))}));
+      return;
+    }
+  };
+  let r_main = guarded(std::panic::AssertUnwindSafe(|| optimum_poling_period(signal, pump, cs).map(|p| met(p)).map_err(|e| e.0)));
+  let r_try = guarded(std::panic::AssertUnwindSafe(|| {
+    PeriodicPoling::try_new_optimum(signal, pump, cs, Apodization::Off).map(|pp| met(pp.signed_period())).map_err(|e| e.0)
+  }));
+  let r_spdc = guarded(std::panic::AssertUnwindSafe(|| {
+    let mut spdc = SPDC::new(
+      cs.clone(), signal.clone(), idler0.clone(), pump.clone(), 5e-9 * M, 1e-3 * W, 1e-2,
+      PeriodicPoling::On { period: 1e-5 * M, sign: Sign::POSITIVE, apodization: Apodization::Off }, 0. * M, 0. * M, 1e-12 * M / V,
+    );
+    match spdc.assign_optimum_periodic_poling() {
+      Ok(_) => Ok(met(spdc.pp.signed_period())),
+      Err(e) => Err(e.0),
+    }
+  }));
+  let sign_rule = guarded(std::panic::AssertUnwindSafe(|| PeriodicPoling::compute_sign(signal, pump, cs) == Sign::POSITIVE));
+  // replica of the internal minimisation, from public API, with its evaluation table
+  let length = met(cs.length);
+  let sign = if z0v < 0.0 { Sign::NEGATIVE } else { Sign::POSITIVE };
+  let guess = (2.0 * PI / z0v).abs();
+  let zero_index = std::cell::Cell::new(false);
+  let cost = |period: f64| {
+    let pp = PeriodicPoling::On { period: period * M, sign, apodization: Apodization::Off };
+    match dkz(signal, pump, cs, &pp) {
+      Ok((z, idl)) => {
+        if !(*idl.refractive_index(idl.frequency(), cs) > 0.0) {
+          zero_index.set(true);
+        }
+        z.abs()
+      }
+      Err(_) => f64::NAN,
+    }
+  };
+  let (r_rep, table) = if z0v != 0.0 {
+    nm_traced(cost, (guess, guess + 1e-6), 1000, f64::MIN_POSITIVE, length, 1e-12)
+  } else {
+    (Ok(f64::INFINITY), vec![])
+  };
+  // residual at the returned period, through the public types (PeriodicPoling::new + optimum idler + delta_k)
+  let residual = match &r_main {
+    Ok(Ok(p)) if p.is_finite() => {
+      let pp = PeriodicPoling::new(*p * M, Apodization::Off);
+      match guarded(std::panic::AssertUnwindSafe(|| dkz(signal, pump, cs, &pp))) {
+        Ok(Ok((z, idl))) => json!({"dkz": fx(z), "pp": pp_json(&pp), "idler_theta": fx(rad(idl.theta_internal())),
+                                    "idler_dir": v3(&idl.direction().into_inner())}),
+        _ => Value::Null,
+      }
+    }
+    _ => Value::Null,
+  };
+  emit(json!({
+    "kind": "poling", "i": i, "tag": tag, "input": input, "length": fx(length),
+    "signal_theta": fx(rad(signal.theta_internal())), "dkz0": fx(z0v),
+    "idler0_theta": fx(rad(idler0.theta_internal())),
+    "indices": [fx(*signal.refractive_index(signal.frequency(), cs)), fx(*pump.refractive_index(pump.frequency(), cs)),
+                fx(*idler0.refractive_index(idler0.frequency(), cs))],
+    "optimum_poling_period": result_json(&r_main), "try_new_optimum": result_json(&r_try),
+    "assign_optimum_periodic_poling": result_json(&r_spdc),
+    "compute_sign_positive": match sign_rule { Ok(b) => json!(b), Err(m) => json!(m) },
+    "replica": {"g0": fx(guess), "g1": fx(guess + 1e-6), "max_iter": 1000, "min": fx(f64::MIN_POSITIVE), "max": fx(length), "tol": fx(1e-12),
+                "result": match &r_rep { Ok(x) => json!({"ok": true, "x": fx(*x)}), Err(m) => json!({"ok": false, "panic": m}) },
+                "table": table_json(&table)},
+    "residual": residual, "zero_index_during_search": zero_index.get(),
+  }));
+}
+
+/// the JSON configuration route: "poling_period_um": "auto" / "theta_deg": "auto"
+fn config_json(s: &Setup, theta_auto: bool, poling_auto: bool) -> String {
+  let i = &s.input;
+  let pm = i["pm_type"].as_str().unwrap();
+  let theta = if theta_auto { json!("auto") } else { json!(f64_of(&i["crystal_theta"]).to_degrees()) };
+  let mut v = json!({
+    "crystal": {"kind": i["crystal"], "pm_type": pm, "phi_deg": f64_of(&i["crystal_phi"]).to_degrees(), "theta_deg": theta,
+                "length_um": f64_of(&i["length"]) * 1e6, "temperature_c": f64_of(&i["temperature_c"])},
+    "pump": {"wavelength_nm": f64_of(&i["pump_wavelength"]) * 1e9, "waist_um": f64_of(&i["pump_waist"]) * 1e6, "bandwidth_nm": 0.5, "average_power_mw": 1.0},
+    "signal": {"wavelength_nm": f64_of(&i["signal_wavelength"]) * 1e9, "phi_deg": f64_of(&i["signal_phi"]).to_degrees(),
+               "theta_deg": f64_of(&i["signal_theta"]).to_degrees(), "waist_um": f64_of(&i["signal_waist"]) * 1e6},
+    "idler": "auto",
+    "deff_pm_per_volt": 1.0,
+  });
+  if poling_auto {
+    v["periodic_poling"] = json!({"poling_period_um": "auto"});
+  }
+  v.to_string()
+}
+
+fn run_poling(rng: &mut Rng, n: usize) {
+  for i in 0..n {
+    // property box: lengths 1-30 mm, temperatures 0-100 C, signal polar angle 0 - 0.05 rad, no counter-propagation
+    let mut s = gen_setup(rng, i, 0.0, 0.05, false);
+    s.pp = PeriodicPoling::Off;
+    observe_poling(i, "box", &s);
+    if i % 5 == 0 {
+      // configuration route on the same numbers (the config converts units: values differ in the last bits, so the
+      // consumer checks the property on the configuration's own result rather than comparing periods bit by bit)
+      let cfg = config_json(&s, false, true);
+      let r = guarded(std::panic::AssertUnwindSafe(|| SPDC::from_json(&cfg)));
+      let o = match r {
+        Ok(Ok(spdc)) => {
+          let z0 = guarded(std::panic::AssertUnwindSafe(|| dkz(&spdc.signal, &spdc.pump, &spdc.crystal_setup, &PeriodicPoling::Off)));
+          let z = guarded(std::panic::AssertUnwindSafe(|| dkz(&spdc.signal, &spdc.pump, &spdc.crystal_setup, &spdc.pp)));
+          json!({"class": "ok", "pp": pp_json(&spdc.pp), "length": fx(met(spdc.crystal_setup.length)),
+                 "signal_theta": fx(rad(spdc.signal.theta_internal())),
+                 "dkz0": match z0 { Ok(Ok((z, _))) => fx(z), _ => Value::Null },
+                 "dkz": match z { Ok(Ok((z, _))) => fx(z), _ => Value::Null }})
+        }
+        Ok(Err(e)) => json!({"class": "err", "error": e.to_string()}),
+        Err(m) => json!({"class": "panic", "message": m}),
+      };
+      emit(json!({"kind": "poling_config", "i": i, "input": s.input, "result": o}));
+    }
+  }
+}
+
+/// crystal lengths just below / at / above the exact collinear root 2 pi / |dkz0|
+fn run_edge(rng: &mut Rng, n: usize) {
+  let mut done = 0;
+  let mut i = 0;
+  while done < n && i < 40 * n {
+    i += 1;
+    let mut s = gen_setup(rng, i, 0.0, 0.0, false);
+    s.pp = PeriodicPoling::Off;
+    // collinear signal; look for an orientation whose unpoled mismatch gives a period of 1-3 mm: scan crystal theta for a sign
+    // change of dkz0 and bisect to |dkz0| = 2 pi / target
+    s.signal.set_angles(0. * RAD, 0. * RAD);
+    let target = rng.range(1.0e-3, 3.0e-3);
+    let f = |th: f64, s: &Setup| -> Option<f64> {
+      let mut cs = s.cs.clone();
+      cs.theta = th * RAD;
+      match guarded(std::panic::AssertUnwindSafe(|| dkz(&s.signal, &s.pump, &cs, &PeriodicPoling::Off))) {
+        Ok(Ok((z, _))) if z.is_finite() => Some(z),
+        _ => None,
+      }
+    };
+    let want = 2.0 * PI / target;
+    let mut found = None;
+    let mut prev: Option<(f64, f64)> = None;
+    for k in 0..=90 {
+      let th = (k as f64).to_radians();
+      if let Some(z) = f(th, &s) {
+        if let Some((pth, pz)) = prev {
+          if (pz - want) * (z - want) < 0.0 {
+            found = Some((pth, th, pz - want));
+            break;
+          }
+        }
+        prev = Some((th, z));
+      } else {
+        prev = None;
+      }
+    }
+    let (mut lo, mut hi, flo) = match found {
+      Some(x) => x,
+      None => continue,
+    };
+    for _ in 0..60 {
+      let mid = 0.5 * (lo + hi);
+      match f(mid, &s) {
+        Some(z) => {
+          if (z - want) * flo > 0.0 {
+            lo = mid
+          } else {
+            hi = mid
+          }
+        }
+        None => break,
+      }
+    }
+    s.cs.theta = lo * RAD;
+    let z0 = match f(lo, &s) {
+      Some(z) => z,
+      None => continue,
+    };
+    let root = (2.0 * PI / z0).abs();
+    if !(root > 0.9e-3 && root < 3.3e-3) {
+      continue;
+    }
+    // crystal lengths around the root: the root is above the length by 0.05 .. 1.5 um, or below it
+    for (j, d) in [0.05e-6, 0.3e-6, 0.5e-6, 0.7e-6, 0.95e-6, 1.5e-6, -0.5e-6].iter().enumerate() {
+      let mut s2 = Setup { cs: s.cs.clone(), signal: s.signal.clone(), pump: s.pump.clone(), pp: PeriodicPoling::Off, input: s.input.clone() };
+      let l = root - d;
+      s2.cs.length = l * M;
+      s2.input["length"] = fx(l);
+      s2.input["crystal_theta"] = fx(lo);
+      s2.input["signal_theta"] = fx(0.0);
+      s2.input["signal_phi"] = fx(0.0);
+      s2.input["edge_root_minus_length"] = fx(*d);
+      observe_poling(done * 10 + j, "edge", &s2);
+    }
+    done += 1;
+  }
+}
+
+// ------------------------------------------------------------------------------------------------ crystal angle
+fn theta_cost(cs: &CrystalSetup, signal: &SignalBeam, pump: &PumpBeam, theta_s_e: Angle, theta: f64) -> Option<(f64, f64)> {
+  // exactly the closure of CrystalSetup::optimum_theta, from public API; returns (signed dkz, internal signal angle)
+  let mut cs2 = cs.clone();
+  let mut sig = signal.clone();
+  cs2.theta = theta * RAD;
+  sig.set_theta_external(theta_s_e, &cs2);
+  match dkz(&sig, pump, &cs2, &PeriodicPoling::Off) {
+    Ok((z, _)) => Some((z, rad(sig.theta_internal()))),
+    Err(_) => None,
+  }
+}
+
+fn observe_theta(i: usize, tag: &str, s: &Setup) {
+  let Setup { cs, signal, pump, input, .. } = s;
+  let length = met(cs.length);
+  let r_main = guarded(std::panic::AssertUnwindSafe(|| rad(cs.optimum_theta(signal, pump))));
+  let r_spdc = guarded(std::panic::AssertUnwindSafe(|| {
+    let idler0 = IdlerBeam::try_new_optimum(signal, pump, cs, PeriodicPoling::Off).unwrap();
+    let mut spdc = SPDC::new(cs.clone(), signal.clone(), idler0, pump.clone(), 5e-9 * M, 1e-3 * W, 1e-2, PeriodicPoling::Off, 0. * M, 0. * M, 1e-12 * M / V);
+    spdc.assign_optimum_crystal_theta();
+    rad(spdc.crystal_setup.theta)
+  }));
+  let theta_s_e = match guarded(std::panic::AssertUnwindSafe(|| signal.theta_external(cs))) {
+    Ok(a) => a,
+    Err(m) => {
+      emit(json!({"kind": "theta_skip", "i": i, "input": input, "why": m}));
+      return;
+    }
+  };
+  // replica with table
+  let cost = |th: f64| match guarded(std::panic::AssertUnwindSafe(|| theta_cost(cs, signal, pump, theta_s_e, th))) {
+    Ok(Some((z, _))) => z.abs(),
+    _ => f64::NAN,
+  };
+  let guess = PI / 6.0;
+  let (r_rep, table) = nm_traced(cost, (guess, guess + 1.0), 1000, 0.0, FRAC_PI_2, 1e-6);
+  // residual at the returned angle, as the code's own notion of "the setup at that angle" (signal external angle kept)
+  let residual = match &r_main {
+    Ok(th) => match guarded(std::panic::AssertUnwindSafe(|| theta_cost(cs, signal, pump, theta_s_e, *th))) {
+      Ok(Some((z, ths))) => json!({"dkz": fx(z), "signal_theta_internal": fx(ths)}),
+      _ => Value::Null,
+    },
+    Err(_) => Value::Null,
+  };
+  // residual as SPDC::assign_optimum_crystal_theta leaves the object (signal's INTERNAL angle unchanged)
+  let residual_obj = match &r_main {
+    Ok(th) => {
+      let mut cs2 = cs.clone();
+      cs2.theta = *th * RAD;
+      match guarded(std::panic::AssertUnwindSafe(|| dkz(signal, pump, &cs2, &PeriodicPoling::Off))) {
+        Ok(Ok((z, _))) => fx(z),
+        _ => Value::Null,
+      }
+    }
+    Err(_) => Value::Null,
+  };
+  // 0.25 degree scan of the signed mismatch
+  let mut scan: Vec<Value> = Vec::new();
+  for k in 0..=360 {
+    let th = (k as f64 * 0.25).to_radians().min(FRAC_PI_2);
+    match guarded(std::panic::AssertUnwindSafe(|| theta_cost(cs, signal, pump, theta_s_e, th))) {
+      Ok(Some((z, _))) => scan.push(fx(z)),
+      _ => scan.push(Value::Null),
+    }
+  }
+  // refine every sign change by bisection: a phase-matching angle
+  let mut roots: Vec<Value> = Vec::new();
+  let val = |th: f64| match guarded(std::panic::AssertUnwindSafe(|| theta_cost(cs, signal, pump, theta_s_e, th))) {
+    Ok(Some((z, _))) if z.is_finite() => Some(z),
+    _ => None,
+  };
+  for k in 0..360 {
+    let (a, b) = ((k as f64 * 0.25).to_radians(), ((k + 1) as f64 * 0.25).to_radians().min(FRAC_PI_2));
+    if let (Some(za), Some(zb)) = (val(a), val(b)) {
+      if za == 0.0 || za * zb < 0.0 {
+        let (mut lo, mut hi, zlo) = (a, b, za);
+        for _ in 0..70 {
+          let mid = 0.5 * (lo + hi);
+          match val(mid) {
+            Some(zm) => {
+              if zm * zlo > 0.0 {
+                lo = mid
+              } else {
+                hi = mid
+              }
+            }
+            None => break,
+          }
+        }
+        if let Some(z) = val(lo) {
+          roots.push(json!({"theta": fx(lo), "dkz": fx(z)}));
+        }
+      }
+    }
+  }
+  emit(json!({
+    "kind": "theta", "i": i, "tag": tag, "input": input, "length": fx(length), "signal_theta_external": fx(rad(theta_s_e)),
+    "optimum_theta": match &r_main { Ok(t) => json!({"class": "ok", "value": fx(*t)}), Err(m) => json!({"class": "panic", "message": m}) },
+    "assign_optimum_crystal_theta": match &r_spdc { Ok(t) => json!({"class": "ok", "value": fx(*t)}), Err(m) => json!({"class": "panic", "message": m}) },
+    "replica": {"g0": fx(guess), "g1": fx(guess + 1.0), "max_iter": 1000, "min": fx(0.0), "max": fx(FRAC_PI_2), "tol": fx(1e-6),
+                "result": match &r_rep { Ok(x) => json!({"ok": true, "x": fx(*x)}), Err(m) => json!({"ok": false, "panic": m}) },
+                "table": table_json(&table)},
+    "residual": residual, "residual_object": residual_obj, "scan": scan, "roots": roots,
+  }));
+}
+
+fn theta_setup(rng: &mut Rng, crystal_id: &str, pm: PMType, lp: f64, ls: f64, c_phi: f64, theta_s: f64, length: f64, t_c: f64) -> Setup {
+  let crystal = CrystalType::from_string(crystal_id).unwrap();
+  let cs = CrystalSetup {
+    crystal,
+    pm_type: pm,
+    theta: 0. * RAD,
+    phi: c_phi * RAD,
+    length: length * M,
+    temperature: from_celsius_to_kelvin(t_c),
+    counter_propagation: false,
+  };
+  let waist_s = rng.range(20e-6, 200e-6);
+  let waist_p = rng.range(20e-6, 400e-6);
+  let signal: SignalBeam = Beam::new(pm.signal_polarization(), 0. * RAD, theta_s * RAD, ls * M, waist_s * M).into();
+  let pump: PumpBeam = Beam::new(pm.pump_polarization(), 0. * RAD, 0. * RAD, lp * M, waist_p * M).into();
+  let input = json!({
+    "crystal": crystal_id, "pm_type": pm.to_str(), "crystal_theta": fx(0.0), "crystal_phi": fx(c_phi),
+    "temperature_c": fx(t_c), "length": fx(length), "counter_propagation": false,
+    "pump_wavelength": fx(lp), "pump_waist": fx(waist_p),
+    "signal_wavelength": fx(ls), "signal_phi": fx(0.0), "signal_theta": fx(theta_s), "signal_waist": fx(waist_s),
+  });
+  Setup { cs, signal, pump, pp: PeriodicPoling::Off, input }
+}
+
+fn run_theta(rng: &mut Rng, n: usize) {
+  let metas = CrystalType::get_all_meta();
+  let pms = [PMType::Type1_e_oo, PMType::Type2_e_eo, PMType::Type2_e_oe];
+  // the configuration named in the design notes first: BiBO_1, e -> eo, 775 -> 1550 nm, azimuth 0
+  let s = theta_setup(rng, "BiBO_1", PMType::Type2_e_eo, 775e-9, 1550e-9, 0.0, 0.0, 2e-3, 20.0);
+  observe_theta(0, "design-note", &s);
+  for i in 1..n {
+    let meta = &metas[i % metas.len()];
+    let pm = pms[(i / metas.len()) % 3];
+    let (lo, hi) = crate::c03::window(meta);
+    // degenerate or mildly non-degenerate down-conversion with all three wavelengths inside the window
+    let lp = rng.log_range(lo, hi / 2.05);
+    let ls = if rng.coin() { 2.0 * lp } else { rng.range(1.6 * lp, (2.6 * lp).min(hi)) };
+    let c_phi = match rng.below(4) {
+      0 => 0.0,
+      1 => FRAC_PI_2,
+      _ => rng.range(0.0, 2.0 * PI),
+    };
+    let theta_s = if rng.below(4) == 0 { rng.range(0.0, 0.03) } else { 0.0 };
+    let len = rng.range(1e-3, 30e-3);
+    let t_c = if rng.coin() { 20.0 } else { rng.range(0.0, 100.0) };
+    let s = theta_setup(rng, meta.id, pm, lp, ls, c_phi, theta_s, len, t_c);
+    observe_theta(i, "box", &s);
+    if i % 6 == 0 {
+      let cfg = config_json(&s, true, false);
+      let r = guarded(std::panic::AssertUnwindSafe(|| SPDC::from_json(&cfg)));
+      let o = match r {
+        Ok(Ok(spdc)) => {
+          let z = guarded(std::panic::AssertUnwindSafe(|| dkz(&spdc.signal, &spdc.pump, &spdc.crystal_setup, &PeriodicPoling::Off)));
+          json!({"class": "ok", "theta": fx(rad(spdc.crystal_setup.theta)), "length": fx(met(spdc.crystal_setup.length)),
+                 "dkz": match z { Ok(Ok((z, _))) => fx(z), _ => Value::Null }})
+        }
+        Ok(Err(e)) => json!({"class": "err", "error": e.to_string()}),
+        Err(m) => json!({"class": "panic", "message": m}),
+      };
+      emit(json!({"kind": "theta_config", "i": i, "input": s.input, "result": o}));
+    }
+  }
+}
+
+pub fn run(args: &[String]) {
+  let mode = args.first().map(|s| s.as_str()).unwrap_or("nm");
+  let seed = arg_u64(args, 1, 1);
+  let n = arg_u64(args, 2, 50) as usize;
+  let mut rng = Rng::new(seed ^ 0xC04);
+  match mode {
+    "nm" => run_nm(&mut rng, n),
+    "poling" => run_poling(&mut rng, n),
+    "edge" => run_edge(&mut rng, n),
+    "theta" => run_theta(&mut rng, n),
+    "replay" => {
+      // args[1]: file {"mode": "poling"|"theta", "input": .., "pp": ..}
+      let txt = std::fs::read_to_string(&args[1]).unwrap_or_default();
+      let v: Value = serde_json::from_str(&txt).unwrap_or(Value::Null);
+      match setup_from_json(&v["input"], &json!({"on": false})) {
+        Some(s) => {
+          if v["mode"].as_str() == Some("theta") {
+            observe_theta(0, "replay", &s)
+          } else {
+            observe_poling(0, "replay", &s)
+          }
+        }
+        None => emit(json!({"kind": "bad_replay"})),
+      }
+    }
+    _ => emit(json!({"kind": "bad_mode", "mode": mode})),
+  }
 }
